@@ -162,16 +162,48 @@ impl Default for SineOpt {
     }
 }
 
+/// Nearest-mode generators are built the way users build them: `Sine { freq: f * Hz, option }.into_nearest()`
+/// (invisible to the model: the op line is the same `sine N…`; a dropped option or a changed frequency shows as a
+/// line difference). `sine_case`/`square_case` additionally compare the result with the directly built
+/// `Sine { freq: Nearest(f * Hz), option }`.
 fn make_sine(mode: ModeSpec, cfg: CfgSpec, o: SineOpt) -> Sine<SamplingMode> {
-    Sine {
-        freq: mode.mode(),
-        option: SineOption {
-            intensity: o.intensity,
-            offset: o.offset,
-            phase: f32::from_bits(o.phase) * rad,
-            clamp: o.clamp,
-            sampling_config: cfg.cfg(),
-        },
+    let option = SineOption {
+        intensity: o.intensity,
+        offset: o.offset,
+        phase: f32::from_bits(o.phase) * rad,
+        clamp: o.clamp,
+        sampling_config: cfg.cfg(),
+    };
+    match mode {
+        ModeSpec::N(b) => {
+            let s: Sine<Nearest> = Sine { freq: f32::from_bits(b) * Hz, option }.into_nearest();
+            Sine { freq: s.freq.into(), option: s.option }
+        }
+        _ => Sine { freq: mode.mode(), option },
+    }
+}
+
+/// what a generator is made of, as far as it can be observed: frequency, option fields, sampling division
+fn sine_fp(m: &Sine<SamplingMode>) -> String {
+    let o = &m.option;
+    format!("freq {:?} intensity {} offset {} phase {:?} clamp {} division {:?}", m.freq, o.intensity, o.offset, o.phase, o.clamp, o.sampling_config.division().ok())
+}
+fn square_fp(m: &Square<SamplingMode>) -> String {
+    let o = &m.option;
+    format!("freq {:?} low {} high {} duty {:?} division {:?}", m.freq, o.low, o.high, o.duty, o.sampling_config.division().ok())
+}
+
+/// oracle for the `into_nearest()` entry points: same frequency bits and the same option as the direct construction
+fn into_nearest_oracle(ctx: &mut Ctx, what: &str, mode: ModeSpec, cfg: CfgSpec, via: String, direct: String, replay: &[String]) {
+    if let ModeSpec::N(_) = mode {
+        ctx.out.count(&format!("{what}:built-through-into_nearest()"));
+        if via != direct {
+            ctx.out.violation(
+                format!("{what}:into_nearest:{}:{}", mode.tok(), cfg.tok()),
+                format!("{what}.into_nearest() is {via}, the directly constructed nearest-mode generator is {direct}"),
+                replay.to_vec(),
+            );
+        }
     }
 }
 
@@ -311,6 +343,13 @@ fn sine_case(ctx: &mut Ctx, mode: ModeSpec, cfg: CfgSpec, o: SineOpt, ship: bool
     // ---------------- oracle ----------------
     let key = |what: &str| format!("sine:{what}:{}:{}:{tag}", mode.tok(), cfg.tok());
     let replay = vec![op.chars().take(200).collect::<String>()];
+    {
+        let direct: Sine<SamplingMode> = Sine {
+            freq: mode.mode(),
+            option: SineOption { intensity: o.intensity, offset: o.offset, phase: f32::from_bits(o.phase) * rad, clamp: o.clamp, sampling_config: cfg.cfg() },
+        };
+        into_nearest_oracle(ctx, "Sine", mode, cfg, sine_fp(&m), sine_fp(&direct), &replay);
+    }
     match (&r, cfg.div()) {
         (Err(p), _) => ctx.out.violation(key("panic"), format!("Sine::calc panicked: {p}"), replay),
         (Ok(Ok(b)), Some(div)) => {
@@ -375,9 +414,13 @@ impl Default for SqOpt {
 }
 
 fn make_square(mode: ModeSpec, cfg: CfgSpec, o: SqOpt) -> Square<SamplingMode> {
-    Square {
-        freq: mode.mode(),
-        option: SquareOption { low: o.low, high: o.high, duty: f32::from_bits(o.duty), sampling_config: cfg.cfg() },
+    let option = SquareOption { low: o.low, high: o.high, duty: f32::from_bits(o.duty), sampling_config: cfg.cfg() };
+    match mode {
+        ModeSpec::N(b) => {
+            let s: Square<Nearest> = Square { freq: f32::from_bits(b) * Hz, option }.into_nearest();
+            Square { freq: s.freq.into(), option: s.option }
+        }
+        _ => Square { freq: mode.mode(), option },
     }
 }
 
@@ -410,6 +453,13 @@ fn square_case(ctx: &mut Ctx, mode: ModeSpec, cfg: CfgSpec, o: SqOpt, full: bool
     // ---------------- oracle ----------------
     let key = |what: &str| format!("square:{what}:{}:{}:{tag}", mode.tok(), cfg.tok());
     let replay = vec![op.clone()];
+    {
+        let direct: Square<SamplingMode> = Square {
+            freq: mode.mode(),
+            option: SquareOption { low: o.low, high: o.high, duty: f32::from_bits(o.duty), sampling_config: cfg.cfg() },
+        };
+        into_nearest_oracle(ctx, "Square", mode, cfg, square_fp(&m), square_fp(&direct), &replay);
+    }
     match (&r, cfg.div()) {
         (Err(p), _) => ctx.out.violation(key("panic"), format!("Square::calc panicked: {p}"), replay),
         (Ok(Ok(b)), Some(div)) => {
@@ -506,6 +556,13 @@ fn fourier_case(ctx: &mut Ctx, sp: &FourierSpec, tag: &str) -> Res {
     };
     ctx.line(&op, &ans);
     ctx.out.count(&format!("fourier:{}comp:{}", sp.comps.len(), res_name(&r).split('=').next().unwrap_or("")));
+    {
+        // which frequency modes meet in one sum (E exact integer, F exact float, N nearest)
+        let mut ms: Vec<&str> = sp.comps.iter().map(|c| match c.0 { ModeSpec::E(_) => "E", ModeSpec::F(_) => "F", ModeSpec::N(_) => "N" }).collect();
+        ms.sort();
+        ms.dedup();
+        ctx.out.count(&format!("fourier:modes:{}:{}", if ms.is_empty() { "-".to_string() } else { ms.join("+") }, res_name(&r).split('=').next().unwrap_or("")));
+    }
     ctx.out.case(if matches!(r, Ok(Ok(_))) { Some(fnv64(op.split(' ').take(2 + 5 * sp.comps.len() + 3).collect::<Vec<_>>().join(" ").as_bytes())) } else { None });
     // ---------------- oracle ----------------
     let name = sp.comps.iter().map(|c| format!("{}/{}", c.0.tok(), c.1.tok())).collect::<Vec<_>>().join("+");
@@ -635,7 +692,61 @@ fn use_str(r: &Res) -> String {
     }
 }
 
-fn wrap_case(ctx: &mut Ctx, inner: &InnerSpec, layers: &[LayerSpec], uses: usize, tag: &str) {
+/// a target that counts how often it is computed (a `Cache` computes its target once)
+#[derive(Clone, Debug)]
+struct Counted<M: Modulation + Clone + std::fmt::Debug> {
+    m: M,
+    calls: std::sync::Arc<std::sync::atomic::AtomicUsize>,
+}
+impl<M: Modulation + Clone + std::fmt::Debug> Modulation for Counted<M> {
+    fn calc(self) -> Result<Vec<u8>, ModulationError> {
+        self.calls.fetch_add(1, std::sync::atomic::Ordering::SeqCst);
+        self.m.calc()
+    }
+    fn sampling_config(&self) -> SamplingConfig {
+        self.m.sampling_config()
+    }
+}
+
+/// `inner [fir] [rp]` built from concrete (Send + Sync) types, then `into_boxed()`
+fn boxed_chain(imod: &InnerMod, below: &[LayerSpec], calls: &std::sync::Arc<std::sync::atomic::AtomicUsize>) -> autd3_driver::datagram::BoxedModulation {
+    let base = Counted { m: imod.clone(), calls: calls.clone() };
+    let coef = |c: &Vec<u32>| c.iter().map(|&b| f32::from_bits(b)).collect::<Vec<f32>>();
+    match below {
+        [] => base.into_boxed(),
+        [LayerSpec::Rp] => RadiationPressure::new(base).into_boxed(),
+        [LayerSpec::Fir(c)] => Fir::new(base, coef(c)).into_boxed(),
+        [LayerSpec::Fir(c), LayerSpec::Rp] => RadiationPressure::new(Fir::new(base, coef(c))).into_boxed(),
+        _ => panic!("unsupported boxed shape"),
+    }
+}
+
+/// explicit use of the public `Cache::init()` / `cache()` (oracle only: the model's `wrap` line is the same, an
+/// initialised cache answers every use from its buffer)
+#[derive(Clone, Copy, PartialEq, Debug)]
+enum InitMode {
+    /// only `cache.clone().calc()`
+    Never,
+    /// `init()` on the outermost cache before the first use
+    OuterFirst,
+    /// `init()` on every cache, innermost first, before the first use; and once more after the last use
+    AllFirst,
+    /// `init()` on the outermost cache between the first and the second use
+    Between,
+}
+
+/// handle on one `Cache` layer of a chain (shares the state with the layer inside the chain)
+struct CacheHandle {
+    init: Box<dyn Fn() -> Result<(), ModulationError>>,
+    buffer: Box<dyn Fn() -> Vec<u8>>,
+    /// how often the layer directly below this cache has been computed
+    below_calls: Box<dyn Fn() -> usize>,
+    /// index of the layer in `layers`
+    at: usize,
+}
+
+fn wrap_case(ctx: &mut Ctx, inner: &InnerSpec, layers: &[LayerSpec], uses: usize, init: InitMode, tag: &str) {
+    use std::sync::atomic::{AtomicUsize, Ordering};
     let (imod, itok, icfg) = match inner {
         InnerSpec::Custom(c, b) => (
             InnerMod::C(Custom { buffer: b.clone(), sampling_config: c.cfg() }),
@@ -645,57 +756,94 @@ fn wrap_case(ctx: &mut Ctx, inner: &InnerSpec, layers: &[LayerSpec], uses: usize
         InnerSpec::Square(m, c, o) => (InnerMod::Q(make_square(*m, *c, *o)), format!("Q {} {} {} {} {:08x}", m.tok(), c.tok(), o.low, o.high, o.duty), *c),
     };
     let inner_res: Res = guarded(|| imod.clone().calc());
-    // build the chain out of the real wrapper types; `box` is only used as the outermost layer of a
-    // cache-free chain (BoxedModulation is neither Clone nor, with Rc inside, Send)
-    let mut cur = erase(imod.clone());
+    // build the chain out of the real wrapper types. `box` needs concrete Send + Sync types below it
+    // (`inner [fir] [rp]`), so it is either the outermost layer of a cache-free chain or directly followed by a
+    // `cache` (`Cache::new(m.into_boxed())`, the common user shape; BoxedModulation itself is not Clone)
+    let mut handles: Vec<CacheHandle> = vec![];
+    let counted = |m: Erased| -> (Erased, Rc<std::cell::Cell<usize>>) {
+        let n = Rc::new(std::cell::Cell::new(0usize));
+        let n2 = n.clone();
+        (Erased { cfg: m.cfg, f: Rc::new(move || { n2.set(n2.get() + 1); (m.f)() }) }, n)
+    };
+    let (mut cur, mut cur_calls) = counted(erase(imod.clone()));
     let mut boxed_top = false;
-    for (k, l) in layers.iter().enumerate() {
-        match l {
+    let mut k = 0;
+    while k < layers.len() {
+        match &layers[k] {
             LayerSpec::Rp => cur = erase(RadiationPressure::new(cur)),
             LayerSpec::Fir(c) => cur = erase(Fir::new(cur, c.iter().map(|&b| f32::from_bits(b)).collect::<Vec<f32>>())),
-            LayerSpec::Cache => cur = erase(Cache::new(cur)),
+            LayerSpec::Cache => {
+                let c = Cache::new(cur);
+                let (c1, c2, n) = (c.clone(), c.clone(), cur_calls.clone());
+                handles.push(CacheHandle { init: Box::new(move || c1.init()), buffer: Box::new(move || c2.cache().borrow().clone()), below_calls: Box::new(move || n.get()), at: k });
+                cur = erase(c);
+            }
             LayerSpec::Box => {
-                assert!(k == layers.len() - 1 && !layers.contains(&LayerSpec::Cache));
-                boxed_top = true;
+                if k == layers.len() - 1 {
+                    assert!(!layers.contains(&LayerSpec::Cache));
+                    boxed_top = true;
+                } else {
+                    assert!(layers[k + 1] == LayerSpec::Cache && !layers[..k].contains(&LayerSpec::Cache));
+                    let calls = std::sync::Arc::new(AtomicUsize::new(0));
+                    let c = Cache::new(boxed_chain(&imod, &layers[..k], &calls));
+                    let (c1, c2) = (c.clone(), c.clone());
+                    handles.push(CacheHandle { init: Box::new(move || c1.init()), buffer: Box::new(move || c2.cache().borrow().clone()), below_calls: Box::new(move || calls.load(Ordering::SeqCst)), at: k + 1 });
+                    cur = erase(c);
+                    k += 1; // the cache layer is consumed here
+                }
             }
         }
+        // count the computations of every layer (the one below a later cache is the interesting one)
+        let (c, n) = counted(cur);
+        cur = c;
+        cur_calls = n;
+        k += 1;
     }
+    let mut init_results: Vec<(usize, &'static str, Result<Result<(), ModulationError>, String>)> = vec![];
     let (top_cfg, results): (SamplingConfig, Vec<Res>) = if boxed_top {
         // rebuild with concrete, Send + Sync types: inner [rp|fir]* then into_boxed
         let below = &layers[..layers.len() - 1];
-        let run = |below: &[LayerSpec]| -> (SamplingConfig, Res) {
-            match below {
-                [] => {
-                    let b = imod.clone().into_boxed();
-                    (b.sampling_config(), guarded(|| b.calc()))
-                }
-                [LayerSpec::Rp] => {
-                    let b = RadiationPressure::new(imod.clone()).into_boxed();
-                    (b.sampling_config(), guarded(|| b.calc()))
-                }
-                [LayerSpec::Fir(c)] => {
-                    let b = Fir::new(imod.clone(), c.iter().map(|&b| f32::from_bits(b)).collect::<Vec<f32>>()).into_boxed();
-                    (b.sampling_config(), guarded(|| b.calc()))
-                }
-                [LayerSpec::Fir(c), LayerSpec::Rp] => {
-                    let b = RadiationPressure::new(Fir::new(imod.clone(), c.iter().map(|&b| f32::from_bits(b)).collect::<Vec<f32>>())).into_boxed();
-                    (b.sampling_config(), guarded(|| b.calc()))
-                }
-                _ => panic!("unsupported boxed shape"),
-            }
-        };
+        let calls = std::sync::Arc::new(AtomicUsize::new(0));
         let mut cfg = None;
         let rs = (0..uses)
             .map(|_| {
-                let (c, r) = run(below);
-                cfg = Some(c);
-                r
+                let b = boxed_chain(&imod, below, &calls);
+                cfg = Some(b.sampling_config());
+                guarded(|| b.calc())
             })
             .collect();
         (cfg.unwrap(), rs)
     } else {
         let cfg = cur.sampling_config();
-        (cfg, (0..uses).map(|_| guarded(|| cur.clone().calc())).collect())
+        if !handles.is_empty() {
+            match init {
+                InitMode::OuterFirst => {
+                    let h = handles.last().unwrap();
+                    init_results.push((h.at, "before the first use", guarded(|| (h.init)())));
+                }
+                InitMode::AllFirst => {
+                    for h in &handles {
+                        init_results.push((h.at, "before the first use", guarded(|| (h.init)())));
+                    }
+                }
+                _ => {}
+            }
+        }
+        let mut rs = vec![];
+        for u in 0..uses {
+            rs.push(guarded(|| cur.clone().calc()));
+            if u == 0 && init == InitMode::Between {
+                if let Some(h) = handles.last() {
+                    init_results.push((h.at, "after the first use", guarded(|| (h.init)())));
+                }
+            }
+        }
+        if init == InitMode::AllFirst {
+            for h in &handles {
+                init_results.push((h.at, "after the last use", guarded(|| (h.init)())));
+            }
+        }
+        (cfg, rs)
     };
     let mut op = format!("wrap {uses} {itok}");
     for l in layers {
@@ -748,6 +896,64 @@ fn wrap_case(ctx: &mut Ctx, inner: &InnerSpec, layers: &[LayerSpec], uses: usize
         }
         if u > 0 && use_str(r) != use_str(&results[0]) {
             ctx.out.violation(key("stable"), format!("use {} returned {} but the first use returned {}", u + 1, use_str(r).chars().take(60).collect::<String>(), use_str(&results[0]).chars().take(60).collect::<String>()), replay.clone());
+        }
+    }
+    // ---------------- oracle: the public `Cache::init()` / `cache()` (explicit initialisation) ----------------
+    if !handles.is_empty() {
+        ctx.out.count(&format!("wrap:cache-init:{init:?}"));
+        let top_is_cache = handles.last().map(|h| h.at) == Some(layers.len() - 1);
+        let shown = |r: &Result<Result<(), ModulationError>, String>| match r {
+            Ok(Ok(())) => "ok".to_string(),
+            Ok(Err(e)) => err_kind(e),
+            Err(_) => "panic".to_string(),
+        };
+        let first = match &results[0] {
+            Ok(Ok(_)) => "ok".to_string(),
+            Ok(Err(e)) => err_kind(e),
+            Err(_) => "panic".to_string(),
+        };
+        for (at, when, r) in &init_results {
+            ctx.out.count(&format!("wrap:cache-init-result:{}", shown(r).split('(').next().unwrap_or("")));
+            let is_top = *at == layers.len() - 1;
+            // errors travel upwards unchanged: a cache whose init fails makes every use of the chain fail the same
+            // way; a chain that can be used has only caches whose init succeeds; the outermost cache agrees exactly
+            let bad = match (shown(r).as_str(), first.as_str()) {
+                ("panic", _) => true,
+                ("ok", f) => is_top && f != "ok",
+                (e, f) => e != f,
+            };
+            if bad {
+                ctx.out.violation(
+                    key("init"),
+                    format!("Cache::init() of layer {at} {when} answered {} but using the chain answers {first}", shown(r)),
+                    replay.clone(),
+                );
+            }
+            if let Some((_, _, r0)) = init_results.iter().find(|x| x.0 == *at) {
+                if shown(r0) != shown(r) {
+                    ctx.out.violation(key("init-stable"), format!("Cache::init() of layer {at} answered {} {when}, {} at first", shown(r), shown(r0)), replay.clone());
+                }
+            }
+        }
+        for h in &handles {
+            let n = (h.below_calls)();
+            if n != 1 {
+                ctx.out.violation(key("recomputed"), format!("the target of the Cache at layer {} was computed {n} times over {} init() calls and {uses} uses (a Cache computes its target once)", h.at, init_results.iter().filter(|x| x.0 == h.at).count()), replay.clone());
+            }
+            let buf = (h.buffer)();
+            match (&results[0], &inner_res) {
+                (Ok(Ok(b)), _) if top_is_cache && h.at == layers.len() - 1 => {
+                    if &buf != b {
+                        ctx.out.violation(key("getter"), format!("Cache::cache() holds {} samples that differ from the {} samples every use returned", buf.len(), b.len()), replay.clone());
+                    }
+                }
+                (Ok(Ok(_)), Ok(Ok(ib))) => {
+                    if buf.len() != ib.len() {
+                        ctx.out.violation(key("getter"), format!("Cache::cache() of layer {} holds {} samples, the target has {}", h.at, buf.len(), ib.len()), replay.clone());
+                    }
+                }
+                _ => {}
+            }
         }
     }
 }
@@ -828,7 +1034,11 @@ pub fn run(args: &Args) {
         square_case(&mut ctx, ModeSpec::N(fb(f)), d10, SqOpt::default(), true, "corpus");
     }
     // Cache of a failing target
-    wrap_case(&mut ctx, &InnerSpec::Square(ModeSpec::E(5000), d10, SqOpt::default()), &[LayerSpec::Cache], 3, "corpus");
+    wrap_case(&mut ctx, &InnerSpec::Square(ModeSpec::E(5000), d10, SqOpt::default()), &[LayerSpec::Cache], 3, InitMode::Never, "corpus");
+    for im in [InitMode::OuterFirst, InitMode::AllFirst, InitMode::Between] {
+        wrap_case(&mut ctx, &InnerSpec::Square(ModeSpec::E(5000), d10, SqOpt::default()), &[LayerSpec::Cache], 3, im, "corpus-init");
+        wrap_case(&mut ctx, &InnerSpec::Square(ModeSpec::E(150), d10, SqOpt::default()), &[LayerSpec::Box, LayerSpec::Cache], 2, im, "corpus-init");
+    }
     // the repository's own examples
     for m in [ModeSpec::E(150), ModeSpec::F(fb(150.)), ModeSpec::E(200), ModeSpec::F(fb(200.)), ModeSpec::F(fb(781.25)), ModeSpec::F(fb(150.01)), ModeSpec::E(2000), ModeSpec::F(fb(2000.)), ModeSpec::E(4000), ModeSpec::F(fb(-0.1)), ModeSpec::E(0), ModeSpec::F(fb(0.)), ModeSpec::N(fb(150.)), ModeSpec::N(fb(781.25))] {
         sine_case(&mut ctx, m, d10, SineOpt::default(), true, "repo-tests");
@@ -1011,11 +1221,16 @@ pub fn run(args: &Args) {
         }
     }
     let nf = if thorough { 400 } else { 80 };
-    for _ in 0..nf {
+    for it in 0..nf {
         let k = rng.range(1, 4) as usize;
-        let kind = rng.below(3);
+        // every other Fourier draws the frequency mode per component (Exact + Nearest + ExactFloat in one sum: one
+        // length divides 40000, another is arbitrary, so the lcm and the cycling of the short buffers are in a
+        // different regime than in equal-mode sets, whose lengths mostly divide each other)
+        let mixed = it % 2 == 1;
+        let kind0 = rng.below(3);
         let d = *rng.pick(&[1u16, 2, 5, 10, 10, 10, 40, 100]);
         let nyq = (20000 / d as u32).max(2);
+        let fsamp = 40000f32 / d as f32;
         let mut comps = vec![];
         for _ in 0..k {
             let f = match rng.below(4) {
@@ -1024,10 +1239,15 @@ pub fn run(args: &Args) {
                 2 => (nyq / rng.range(2, 40) as u32).max(1),
                 _ => rng.range(1, 64) as u32,
             };
+            let kind = if mixed { rng.below(3) } else { kind0 };
             let m = match kind {
                 0 => ModeSpec::E(f),
-                1 => ModeSpec::F(fb(f as f32 / *rng.pick(&[1f32, 2., 4., 8., 1.])))
-                ,
+                1 => ModeSpec::F(fb(f as f32 / *rng.pick(&[1f32, 2., 4., 8., 1.]))),
+                _ if mixed && rng.chance(2, 3) => {
+                    // a nearest-mode component of exactly n samples, n coprime to / sharing factors with 40000
+                    let n = *rng.pick(&[3u32, 7, 9, 12, 13, 16, 21, 33, 64, 81, 100, 128, 243, 819, 1000, 1024]);
+                    ModeSpec::N(fb(fsamp / n as f32))
+                }
                 _ => ModeSpec::N(fb(f as f32 + 0.37)),
             };
             let cfg = if rng.chance(1, 25) { CfgSpec::Div(d + 1) } else if rng.chance(1, 60) { CfgSpec::Bad } else { CfgSpec::Div(d) };
@@ -1042,6 +1262,27 @@ pub fn run(args: &Args) {
         let l = lens.iter().fold(1u64, |a, &x| (a / gcd(a, x)).saturating_mul(x));
         if l <= (1 << 22) || ctx.repaired_len {
             fourier_case(&mut ctx, &sp, "random");
+        }
+    }
+    // mixed-mode sums with known lengths: E(50) at 4 kHz is 80 samples; with a nearest-mode component of 819 samples
+    // the lcm is 65520 (accepted, each short buffer cycled 819 / 80 times); with 821 samples it is 65680 (refused)
+    {
+        let fsamp = 4000f32;
+        let e50 = (ModeSpec::E(50), d10, 255u8, 128u8, 0u32);
+        let mut sets = vec![
+            vec![e50, (ModeSpec::N(fb(fsamp / 819.)), d10, 100, 60, fb(1.0))],
+            vec![(ModeSpec::N(fb(fsamp / 819.)), d10, 100, 60, fb(1.0)), e50],
+            vec![e50, (ModeSpec::F(fb(62.5)), d10, 200, 100, fb(0.5)), (ModeSpec::N(fb(fsamp / 7.)), d10, 100, 60, 0)],
+            vec![(ModeSpec::N(fb(fsamp / 9.)), d10, 255, 128, 0), (ModeSpec::E(125), d10, 255, 128, 0), (ModeSpec::F(fb(31.25)), d10, 255, 128, 0), (ModeSpec::N(fb(fsamp / 2.)), d10, 255, 128, 0)],
+            vec![(ModeSpec::F(fb(0.9765625)), d10, 255, 128, 0), (ModeSpec::N(fb(fsamp / 16.)), d10, 255, 128, 0), (ModeSpec::E(1000), d10, 255, 128, 0)],
+        ];
+        if ctx.repaired_len {
+            sets.push(vec![e50, (ModeSpec::N(fb(fsamp / 821.)), d10, 100, 60, fb(1.0))]);
+            sets.push(vec![(ModeSpec::N(fb(fsamp / 821.)), d10, 100, 60, fb(1.0)), e50]);
+            sets.push(vec![(ModeSpec::F(fb(0.625)), d10, 255, 128, 0), e50, (ModeSpec::N(fb(fsamp / 3.)), d10, 255, 128, 0)]);
+        }
+        for comps in sets {
+            fourier_case(&mut ctx, &FourierSpec { comps, scale: None, clamp: false, offset: 0 }, "lcm-edge-mixed");
         }
     }
     fourier_case(&mut ctx, &FourierSpec { comps: vec![], scale: None, clamp: false, offset: 0 }, "empty");
@@ -1088,11 +1329,16 @@ pub fn run(args: &Args) {
 
     // ------------------------------------------------------------------ wrappers
     let all256: Vec<u8> = (0..=255).collect();
-    wrap_case(&mut ctx, &InnerSpec::Custom(d10, all256.clone()), &[LayerSpec::Rp], 1, "rp-all");
-    wrap_case(&mut ctx, &InnerSpec::Custom(d10, all256.clone()), &[LayerSpec::Rp, LayerSpec::Rp], 1, "rp-all");
+    wrap_case(&mut ctx, &InnerSpec::Custom(d10, all256.clone()), &[LayerSpec::Rp], 1, InitMode::Never, "rp-all");
+    wrap_case(&mut ctx, &InnerSpec::Custom(d10, all256.clone()), &[LayerSpec::Rp, LayerSpec::Rp], 1, InitMode::Never, "rp-all");
     let coef_vals = [1f32, 0.5, 0.25, -0.5, 1. / 3., 2., 1e-3, 0., 0.1, 0.7, -1., 1e38, 1e-40, f32::INFINITY, f32::NAN];
-    let shapes: Vec<Vec<u8>> = vec![vec![0], vec![1], vec![2], vec![3], vec![0, 1], vec![1, 0], vec![2, 0], vec![0, 2], vec![2, 1], vec![1, 2], vec![2, 0, 1], vec![0, 0], vec![1, 3], vec![2, 3], vec![2, 1, 3], vec![0, 2, 1]];
-    let nw = if thorough { 600 } else { 120 };
+    // 0 = rp, 1 = cache, 2 = fir, 3 = box. Cache of Cache ([1,1]) and `Cache::new(m.into_boxed())` ([.., 3, 1, ..]: box as
+    // an inner layer, the common user shape) included
+    let shapes: Vec<Vec<u8>> = vec![
+        vec![0], vec![1], vec![2], vec![3], vec![0, 1], vec![1, 0], vec![2, 0], vec![0, 2], vec![2, 1], vec![1, 2], vec![2, 0, 1], vec![0, 0], vec![1, 3], vec![2, 3], vec![2, 1, 3], vec![0, 2, 1],
+        vec![1, 1], vec![3, 1], vec![1, 1, 0], vec![3, 1, 0], vec![2, 3, 1], vec![0, 3, 1, 1], vec![1, 2, 1], vec![2, 0, 3, 1, 2],
+    ];
+    let nw = if thorough { 720 } else { 144 };
     for it in 0..nw {
         let inner = if rng.chance(2, 3) {
             let len = *rng.pick(&[0usize, 1, 2, 3, 5, 10, 31, 100, 300]);
@@ -1117,15 +1363,24 @@ pub fn run(args: &Args) {
             })
             .collect();
         // `box` shapes are only the outermost layer of a cache-free chain of at most fir, rp
-        let boxed_ok = !layers.contains(&LayerSpec::Box)
-            || (layers.last() == Some(&LayerSpec::Box)
-                && !layers.contains(&LayerSpec::Cache)
-                && matches!(shape.as_slice(), [3] | [0, 3] | [2, 3] | [2, 0, 3]));
+        // or directly followed by a cache (`Cache::new(boxed)`), again over at most fir, rp
+        let bpos = shape.iter().position(|&k| k == 3);
+        let boxed_ok = match bpos {
+            None => true,
+            Some(p) => {
+                shape.iter().filter(|&&k| k == 3).count() == 1
+                    && !shape[..p].contains(&1)
+                    && matches!(&shape[..p], [] | [0] | [2] | [2, 0])
+                    && (p == shape.len() - 1 || shape[p + 1] == 1)
+            }
+        };
         if !boxed_ok {
             continue;
         }
         let uses = if layers.contains(&LayerSpec::Cache) { rng.range(2, 4) as usize } else { 1 };
-        wrap_case(&mut ctx, &inner, &layers, uses, "random");
+        // explicit `init()` on every other case with a cache (cycling through the three places it can be called)
+        let im = match (it / shapes.len()) % 6 { 1 => InitMode::OuterFirst, 3 => InitMode::AllFirst, 5 => InitMode::Between, _ => InitMode::Never };
+        wrap_case(&mut ctx, &inner, &layers, uses, im, "random");
     }
     for shape in [vec![LayerSpec::Box], vec![LayerSpec::Rp, LayerSpec::Box], vec![LayerSpec::Fir(vec![fb(0.5), fb(0.5)]), LayerSpec::Box], vec![LayerSpec::Fir(vec![fb(0.25), fb(0.5), fb(0.25)]), LayerSpec::Rp, LayerSpec::Box]] {
         for inner in [
@@ -1135,7 +1390,7 @@ pub fn run(args: &Args) {
             InnerSpec::Square(ModeSpec::E(150), d10, SqOpt::default()),
             InnerSpec::Square(ModeSpec::E(2000), d10, SqOpt::default()),
         ] {
-            wrap_case(&mut ctx, &inner, &shape, 1, "boxed");
+            wrap_case(&mut ctx, &inner, &shape, 1, InitMode::Never, "boxed");
         }
     }
     // wrappers over the float-valued generators: oracle only through the same path (Sine inside Cache etc.)
@@ -1143,7 +1398,12 @@ pub fn run(args: &Args) {
         let s = make_sine(m, c, SineOpt::default());
         let base = s.calc();
         let cache = Cache::new(s);
+        // explicit initialisation first (the public `init()`), then three uses, then the getter
+        let init = cache.init();
         let uses: Vec<_> = (0..3).map(|_| cache.clone().calc()).collect();
+        if init.as_ref().err() != base.as_ref().err() || (base.is_ok() && Ok(cache.cache().borrow().clone()) != base) || cache.init().err() != base.as_ref().err().cloned() {
+            ctx.out.violation(format!("wrap:sine-init:{}:{}", m.tok(), c.tok()), format!("Cache::init()/cache() of Sine {} disagree with Sine::calc", m.tok()), vec![format!("sine {} {}", m.tok(), c.tok())]);
+        }
         let boxed = s.into_boxed();
         let bcfg = cfg_name(boxed.sampling_config());
         let b = boxed.calc();
